@@ -197,6 +197,10 @@ def _child_session(rec):
         sp = {"method": rec["method"], "scf_eps": cfgd["eps"], "scf_converger": [dict(c_) if isinstance(c_, dict) else c_ for c_ in cfgd["conv"]], "sp2": list(cfgd["sp2"]), "UHF": bool(cfgd["uhf"])}
         if cfgd.get("backward"):
             sp["scf_backward"] = int(cfgd["backward"])  # implicit (1) or unrolled (2) differentiable SCF: other code paths of the same solvers
+        if cfgd.get("exc"):
+            # excited states requested as well: the library may TIGHTEN the SCF threshold (to a tenth of the CIS tolerance),
+            # it must never loosen the one the caller asked for
+            sp["excited_states"] = {"n_states": 2, "method": "cis", "tolerance": float(cfgd["exc"])}
         if cfgd.get("grad"):
             # the other two selectable force evaluators (default: reverse-mode differentiation)
             sp["analytical_gradient"] = [True] if cfgd["grad"] == "analytical" else [True, "numerical"]
@@ -352,6 +356,8 @@ def gen_session(rng, closed_only=False, gap_safe=False):
     # that does not vanish exactly: full-shell atoms (H-, O2-) and H2 (self-consistent after one step by symmetry) are
     # outside its domain (loud errors / NaN flagged as not converged, DESIGN section 13) and are not combined with it.
     ksa_ok = not uhf_session and method != "PM6" and not any(b in NO_KSA for b in batch)
+    # CIS needs occupied AND virtual orbitals in every molecule and the sp basis; homogeneous or mixed batches both work
+    exc_ok = method != "PM6" and not any(b in ("h-", "o2-", "h2") for b in batch)
     ops = []
 
     def cfg():
@@ -376,6 +382,8 @@ def gen_session(rng, closed_only=False, gap_safe=False):
         out = {"eps": rng.choice([1e-4, 1e-6, 1e-8, 1e-10]), "conv": conv, "sp2": sp2, "uhf": uhf_session}
         if method != "PM6" and rng.random() < 0.2:
             out["grad"] = rng.choice(["analytical", "semi-numerical"])
+        if exc_ok and not uhf_session and not sp2[0] and rng.random() < 0.12:
+            out["exc"] = rng.choice([1e-4, 1e-6])
         return out
 
     nops = rng.randint(3, 8)
